@@ -23,6 +23,10 @@ VARIANTS = [
     B("detector-no-last", "    peak_indices = np.insert(peak_indices, len(peak_indices), len(values) - 1)\n", "    peak_indices = np.insert(peak_indices, len(peak_indices), len(values))\n", "R-IDX"),
     B("ncyc-step-1", "    n_cycs = 0.5 * np.arange(len(indys))\n", "    n_cycs = 1.0 * np.arange(len(indys))\n", "R-NCYC"),
     B("ncyc-origin-shift", "        svalue = -0.25\n", "        svalue = -0.75\n", "R-NCYC"),
+    B("turn-pair-shape", "diff[1:] * diff[:-1] < 0", "diff[1:] * diff[:-2] < 0", "R-IDX"),
+    B("turn-pair-not-adjacent", "diff[1:] * diff[:-1] < 0", "diff[2:] * diff[:-2] < 0", "R-IDX"),
+    B("turn-pair-empty", "diff[1:] * diff[:-1] < 0", "diff[1:] * diff[:-0] < 0", "R-IDX"),
+    T("turn-pair-swapped", "diff[1:] * diff[:-1] < 0", "diff[:-1] * diff[1:] < 0"),
     B("ncyc-insert-when-present", "    if indys[0] != 0:\n        indys = np.insert(indys, 0, 0)\n", "    if indys[0] == 0:\n        indys = np.insert(indys, 0, 0)\n", "R-NCYC"),
     B("ncyc-insert-at-1", "        indys = np.insert(indys, 0, 0)\n", "        indys = np.insert(indys, 1, 0)\n", "R-NCYC"),
     B("ncyc-insert-index-1", "        indys = np.insert(indys, 0, 0)\n", "        indys = np.insert(indys, 0, 1)\n", "R-NCYC"),
